@@ -235,11 +235,12 @@ Example C16_nonvacuous :
       (* flag 2: slot 3 panics; admitted, statistic slots told "passed" *)
       REntered 2 1 [LPrep 4; LPrep 7; LCheck 9; LCheck 5; LCheck 2; LCheck 3; LPassed 1 0 3; LPassed 6 0 3];
       RNone;
-      RCalls [LHandler 50];           (* the exit handler panics: contained *)
+      RCalls [LHandler 50; LDone 1 0 1 33 0; LDone 6 0 1 33 0];
+                                      (* the exit handler panics: contained, and (a9e6cc9) the completion still runs *)
       RCalls [];                      (* repeated Exit: nothing *)
       RNone;
       RCalls [LDone 1 0 3 (-1) 5; LDone 6 0 3 (-1) 5];
-      RSnap [] [(0, (4, 2, 3), (3, 5, 1)); (-1, (1, 2, 0), (0, 0, 1))] [ex_bA] ].
+      RSnap [] [(0, (4, 2, 4), (4, 5, 0)); (-1, (1, 2, 1), (1, 0, 0))] [ex_bA] ].
 Proof. vm_compute. split; reflexivity. Qed.
 
 (* the hypotheses of the conditional theorems are met by that chain *)
